@@ -161,6 +161,19 @@ type X6Claims struct {
 	Foo *int `cbor:"1,keyasint" json:"foo"`
 }
 
+// ---- X7: the base claims live behind an embedded INTERFACE holding a struct pointer ----
+type X7Claims struct {
+	psatoken.IClaims
+	Extra *int `cbor:"-75200,keyasint,omitempty" json:"extra,omitempty"`
+}
+
+func (o X7Claims) MarshalCBOR() ([]byte, error) { return encoding.SerializeStructToCBOR(xem, &o) }
+func (o *X7Claims) UnmarshalCBOR(data []byte) error {
+	return encoding.PopulateStructFromCBOR(xdm, data, o)
+}
+func (o X7Claims) MarshalJSON() ([]byte, error)     { return encoding.SerializeStructToJSON(&o) }
+func (o *X7Claims) UnmarshalJSON(data []byte) error { return encoding.PopulateStructFromJSON(data, o) }
+
 // GenProfile is a profile registered under an arbitrary name with one of the claims kinds.
 type GenProfile struct{ Name, Kind string }
 
@@ -180,6 +193,9 @@ func (g GenProfile) GetClaims() psatoken.IClaims {
 		}
 		return &X4Claims{Profile: &p, P1Claims: psatoken.P1Claims{
 			SwComponents: &psatoken.SwComponents[*psatoken.SwComponent]{}, CanonicalProfile: g.Name}}
+	case "X7":
+		b := newP2Base(g.Name)
+		return &X7Claims{IClaims: &b}
 	case "X5":
 		return &X5Claims{}
 	case "X6":
